@@ -130,6 +130,64 @@ theorem claim_to_xr_csa (c : Cfg) (gen : String) (cm : KObj) (xr : Option KObj) 
     simp [this, h]
   · intro h; simp [h]
 
+/-- **claim_to_xr**, labels and annotations, client-side syncer: the object handed to
+Apply is the XR as read plus every non-reserved label and annotation of the claim (the
+claim's value wins), plus the two claim labels; reserved keys of the claim are not added;
+an external name the existing XR already has is restored. -/
+theorem claim_to_xr_meta_csa (c : Cfg) (gen : String) (cm : KObj) (xr : Option KObj) (cs : AL J) (k : String)
+    (hl : NoDup cm.labels) (ha : NoDup cm.anns) :
+    let d := csaDesired c gen cm xr cs
+    let x0 : KObj := xr.getD { name := "" }
+    alookup k d.labels =
+      (if k = Xp.Gen.labelKeyClaimNamespace then some c.claimNS
+       else if k = Xp.Gen.labelKeyClaimName then some cm.name
+       else if reserved k then alookup k x0.labels
+       else (alookup k cm.labels).or (alookup k x0.labels)) ∧
+    alookup k d.anns =
+      (if k = extNameKey ∧ xr.isSome ∧ extName xr ≠ "" then some (extName xr)
+       else if reserved k then alookup k x0.anns
+       else (alookup k cm.anns).or (alookup k x0.anns)) := by
+  refine ⟨?_, ?_⟩
+  · simp only [csaDesired, claimLabels, addAll]
+    have hw : NoDup (withoutReserved cm.labels) := NoDup_filter _ _ hl
+    rw [alookup_aset, alookup_aset, alookup_addAll _ _ _ hw, alookup_withoutReserved]
+    by_cases h1 : k = Xp.Gen.labelKeyClaimNamespace
+    · simp [h1]
+    · by_cases h2 : k = Xp.Gen.labelKeyClaimName
+      · simp [h2]
+      · by_cases h3 : reserved k <;> simp [h1, h2, h3]
+  · have hnd : NoDup ((cm.annotations.map withoutReserved).getD []) := by
+      cases hca : cm.annotations with
+      | none => simp [NoDup, akeys]
+      | some a =>
+        simp only [Option.map_some, Option.getD_some]
+        have : NoDup a := by simpa [KObj.anns, hca] using ha
+        exact NoDup_filter _ a this
+    have hfl : alookup k ((cm.annotations.map withoutReserved).getD []) = if reserved k then none else alookup k cm.anns := by
+      cases hca : cm.annotations with
+      | none => simp [KObj.anns, hca]
+      | some a => simp [KObj.anns, hca, alookup_withoutReserved]
+    have base := getD_addAnn (xr.getD { name := "" }).annotations (cm.annotations.map withoutReserved) k hnd
+    rw [hfl] at base
+    simp only [csaDesired, KObj.anns]
+    by_cases hcond : xr.isSome = true ∧ extName xr ≠ ""
+    · have : (xr.isSome && extName xr != "") = true := by simp [hcond.1, hcond.2]
+      simp only [this, if_true, anns_setAnn, base]
+      by_cases hk : k = extNameKey
+      · simp [hk, hcond.1, hcond.2]
+      · by_cases h3 : reserved k <;> simp [hk, h3, KObj.anns]
+    · have : (xr.isSome && extName xr != "") = false := by
+        by_cases h1 : xr.isSome = true
+        · have : extName xr = "" := by
+            by_cases h2 : extName xr = ""
+            · exact h2
+            · exact absurd ⟨h1, h2⟩ hcond
+          simp [this]
+        · simp [h1]
+      simp only [this, Bool.false_eq_true, if_false, base]
+      have hc2 : ¬ (k = extNameKey ∧ xr.isSome = true ∧ extName xr ≠ "") := fun ⟨_, h2, h3⟩ => hcond ⟨h2, h3⟩
+      simp only [hc2, if_false]
+      by_cases h3 : reserved k <;> simp [h3, KObj.anns]
 /-! ### what the XR side owns is preserved -/
 
 /-- **xr_owned_preserved**, what is asserted: for a valid claim the server-side apply
